@@ -56,3 +56,20 @@ VARIANTS += [
     # session-4 repair (C07 R07.8): the guard that ends the dyadic descent when there is nothing left to halve
     V("dyadic-fallback-always", BI, "                if not interval._start < halfway < interval._end:", "                if True:", rule="R06.2"),
 ]
+
+SEEDS4 = "        self._W_seed, self._H_seed, self._left_a_seed, self._right_a_seed = generator.generate_state(4, dtype=np.uint64)\n"
+VARIANTS += [
+    # round-6 seed: node seeds memoised in a module-level table whose key leaves the pool size out
+    V("node-seed-memo-without-pool-size", BI, SEEDS4,
+      "        memo_key = (self._top._entropy, self._spawn_key, self._depth)\n"
+      "        if memo_key not in _node_seed_memo:\n"
+      "            _node_seed_memo[memo_key] = tuple(generator.generate_state(4, dtype=np.uint64))\n"
+      "        self._W_seed, self._H_seed, self._left_a_seed, self._right_a_seed = _node_seed_memo[memo_key]\n",
+      rule="R06.9", more=(("_rsqrt3 = 1 / math.sqrt(3)\n", "_rsqrt3 = 1 / math.sqrt(3)\n_node_seed_memo = {}\n"),)),
+    V("twin-node-seed-memo-full-key", BI, SEEDS4,
+      "        memo_key = (self._top._entropy, self._spawn_key, self._depth, self._top._pool_size)\n"
+      "        if memo_key not in _node_seed_memo:\n"
+      "            _node_seed_memo[memo_key] = tuple(generator.generate_state(4, dtype=np.uint64))\n"
+      "        self._W_seed, self._H_seed, self._left_a_seed, self._right_a_seed = _node_seed_memo[memo_key]\n",
+      expect="silent", more=(("_rsqrt3 = 1 / math.sqrt(3)\n", "_rsqrt3 = 1 / math.sqrt(3)\n_node_seed_memo = {}\n"),)),
+]
